@@ -175,6 +175,10 @@ def core_pool():
     c.append(make([p('u8'), v('SelfRef')], tags={'nontrivial', 'lowalign', 'selfref'}))
     c.append(make([f('SelfRef'), p('u16')], tags={'nontrivial', 'selfref'}))
     c.append(make([p('SelfRef', 8), p('u8'), v('u16')], tags={'nontrivial', 'layout', 'alignedfirst', 'selfref'}))
+    # alignment-inference chains (see random_list 'chain')
+    c.append(make([p('u8'), v('u8'), p('u64'), v('u64'), p('u64', 8)], tags={'layout', 'chain'}))
+    c.append(make([p('u64', 8), v('u8'), p('u64'), v('u64')], tags={'layout', 'chain', 'alignedfirst'}))
+    c.append(make([p('u32'), v('float'), p('u64'), p('u64', 8)], tags={'layout', 'chain'}))
     c.append(make([p('Handle'), p('i32')], tags={'moveonly', 'plain', 'handle'}))
     c.append(make([p('Handle'), p('string')], tags={'moveonly', 'nontrivial', 'plain', 'handle'}))
     c.append(make([p('u8'), v('Handle'), f('Tracked')], tags={'moveonly', 'nontrivial', 'tracked', 'lowalign', 'handle'}))
@@ -260,6 +264,27 @@ def random_list(rng, flavour):
                 else:
                     params.append(('p', rng.choice(COUNT_TYPES), 1))
                     params.append(('v', t, a))
+        elif flavour == 'chain':
+            # alignment-inference chains: an aligned head fixes the element alignment A, a run-time sized span of small
+            # items lowers what is known about the address, parameters whose size is a multiple of A keep that
+            # knowledge unchanged, a second span of A-sized items (count of the same size) may restore it, and an
+            # aligned tail needs the right (static or run-time) padding in front of it
+            A = rng.choice([4, 8, 8, 8, 16])
+            mult = {4: ['u32', 'float', 'B12', 'i32', 'u64'], 8: ['u64', 'double', 'sz', 'B24', 'cptr'], 16: ['SelfRef', 'B24', 'u64']}[A]
+            exact = {4: ['u32', 'float', 'i32'], 8: ['u64', 'double', 'sz'], 16: ['SelfRef']}[A]
+            if rng.random() < 0.6:
+                params.append((rng.choice(['p', 'p', 'f']), rng.choice(exact), A))
+            params.append(('p', rng.choice(COUNT_TYPES + ['sz']), 1))
+            params.append(('v', rng.choice(['u8', 'u16', 'B3', 'char', 'float', 'u32']), rng.choice([1, 1, 1, 2, 4])))
+            for _ in range(rng.randint(0, 2)):
+                params.append(('p', rng.choice(mult), 1))
+            if rng.random() < 0.5:
+                params.append(('p', 'sz' if A >= 8 else 'u32', 1))
+                params.append(('v', rng.choice(exact), rng.choice([1, 1, A])))
+                if rng.random() < 0.4:
+                    params.append(('p', rng.choice(mult), 1))
+            if rng.random() < 0.8 or params[0][2] == 1:
+                params.append((rng.choice(['p', 'p', 'f']), rng.choice(exact), A))
         else:
             n = rng.randint(1, 5)
             for _ in range(n):
@@ -286,7 +311,7 @@ def random_list(rng, flavour):
             return params
 
 
-FLAVOURS = ['layout', 'fixedlayout', 'tracked', 'alignedfirst', 'layout', 'any']
+FLAVOURS = ['layout', 'fixedlayout', 'tracked', 'alignedfirst', 'layout', 'any', 'chain']
 
 
 def random_pool(seed, count):
@@ -298,7 +323,7 @@ def random_pool(seed, count):
         i += 1
         prm = random_list(rng, fl)
         tags = {'random', fl}
-        if fl in ('layout', 'fixedlayout', 'alignedfirst'):
+        if fl in ('layout', 'fixedlayout', 'alignedfirst', 'chain'):
             tags.add('layout')
         cfg = make(prm, STD, tags=tags)
         ts = {t for _, t, _ in prm}
